@@ -711,10 +711,16 @@ func (vfs *MemFS) RemoveAll(path string) error {
 	parent.mu.Lock()
 	defer parent.mu.Unlock()
 
-	if c, ok := child.(*dirNode); ok && len(c.children) != 0 {
-		err = vfs.removeAll(c)
-		if err != nil {
-			return &fs.PathError{Op: op, Path: path, Err: err}
+	if c, ok := child.(*dirNode); ok {
+		c.mu.RLock()
+		empty := len(c.children) == 0
+		c.mu.RUnlock()
+
+		if !empty {
+			err = vfs.removeAll(c)
+			if err != nil {
+				return &fs.PathError{Op: op, Path: path, Err: err}
+			}
 		}
 	}
 
@@ -723,7 +729,10 @@ func (vfs *MemFS) RemoveAll(path string) error {
 	}
 
 	parent.removeChild(pi.Part())
+
+	child.Lock()
 	child.delete()
+	child.Unlock()
 
 	return nil
 }
@@ -744,7 +753,9 @@ func (vfs *MemFS) removeAll(parent *dirNode) error {
 			}
 		}
 
+		child.Lock()
 		child.delete()
+		child.Unlock()
 	}
 
 	return nil
@@ -804,7 +815,9 @@ func (vfs *MemFS) Rename(oldpath, newpath string) error {
 
 		switch nc := nChild.(type) {
 		case *fileNode:
+			nc.mu.Lock()
 			nc.delete()
+			nc.mu.Unlock()
 		default:
 			err := error(avfs.ErrFileExists)
 			if vfs.OSType() == avfs.OsWindows {
